@@ -1,15 +1,15 @@
 #!/bin/bash
-# seedtest.sh <seed-dir-name> [PID...] : apply a seeded change to /repo, run the quick checks of the given properties
-# (default: the property the seed belongs to), undo the change.  Prints one line per check.
+# seedtest.sh <seed-dir-name> [PID...] : apply a seeded change to a scratch copy of /repo's working tree, run the quick
+# checks of the given properties (default: the property the seed belongs to) against the copy, remove the copy.
 S=$1; shift; D=/verif/seeded/$S
 P=${@:-${S%%_*}}
-cd /repo || exit 2
-if ! git diff --quiet; then echo "/repo has uncommitted changes"; exit 2; fi
+T=$(mktemp -d /tmp/sswseed.XXXXXX)
+cp -r /repo/src /repo/include $T/ && mkdir -p $T/_build && cp /repo/_build/config.h $T/_build/ 2>/dev/null
 PATCH=$D/patch.diff; [ -f $D/patch_current_tree.diff ] && PATCH=$D/patch_current_tree.diff
-git apply $PATCH 2>/dev/null || git apply -3 $PATCH 2>/dev/null || patch -p1 -s -F3 < $PATCH || { echo "$S: patch does not apply"; git checkout -- .; exit 2; }
+( cd $T && (patch -p1 -s -F3 --no-backup-if-mismatch < $PATCH) ) || { echo "$S: patch does not apply"; rm -rf $T; exit 2; }
 for pid in $P; do
-  out=$(cd /verif && python3 run.py check $pid --no-evidence 2>&1); rc=$?
+  out=$(cd /verif && python3 run.py check $pid --no-evidence --repo $T 2>&1); rc=$?
   nv=$(echo "$out" | grep -c "^VIOLATION")
-  echo "$S $pid rc=$rc violations=$nv $(echo "$out" | grep -E '^(VIOLATION|UNDECIDED)' | head -3 | cut -c1-160 | tr '\n' ';')"
+  echo "$S $pid rc=$rc violations=$nv $(echo "$out" | grep -E '^(VIOLATION|UNDECIDED)' | head -3 | cut -c1-140 | tr '\n' ';')"
 done
-git checkout -- . 
+rm -rf $T
